@@ -398,6 +398,10 @@ def main():
 
     # ---------------------------------------------------------------- 3. rejection / error behaviour (fixed)
     outsiders = {16: 'gGzA -=_é', 32: 'ailoAZ-= é', 64: '-+/ .~é中'}
+    # line ends, control characters and non-ASCII spaces: what an unstripped line of a file carries, and what
+    # pattern-based validation ('$' matches before a final newline) or translate tables let through
+    for base in outsiders:
+        outsiders[base] += '\n\r\t\x00\x0b\x7f\x85\u00a0\u2028'
     for base in (16, 32, 64):
         cs = CFG[base]['charset']
         for bad_ch in outsiders[base]:
